@@ -167,8 +167,8 @@ def coq_audit(prop_module, theorems):
             continue
         if "Closed under the global context" in line:
             res[cur]["closed"] = True
-        m = re.match(r"^([A-Za-z_][A-Za-z0-9_'.]*)\s*:", line)
-        if m and not line.startswith("Axioms"):
+        m = re.match(r"^([A-Za-z_][A-Za-z0-9_'.]*)\s*(:|$)", line)
+        if m and not line.startswith("Axioms") and not line.startswith("Closed"):
             res[cur]["axioms"].append(m.group(1))
     return res, out
 
@@ -385,3 +385,29 @@ def rng_for(seed, label):
 
 def hexs(b):
     return b.hex() if b else "-"
+
+
+# ------------------------------------------------------------------ evaluating model terms inside Coq (no extraction in the path)
+def coq_eval_list(requires, list_expr, tag="ev"):
+    """vm_compute a Coq term of type list bool / list Z inside coqc; returns the printed elements as strings."""
+    d = os.path.join(CACHE, "eval")
+    os.makedirs(d, exist_ok=True)
+    v = os.path.join(d, "%s_%d.v" % (tag, os.getpid()))
+    with open(v, "w") as f:
+        f.write(requires + "\nEval vm_compute in (%s).\n" % list_expr)
+    with Lock("coq"):
+        rc, out = sh(["timeout", "900", "coqc", "-noglob", "-Q", os.path.join(COQ, "gen"), "SyGen", "-Q", os.path.join(COQ, "Model"), "SyModel", v],
+                     cwd=d, timeout=1000)
+    for ext in (".v", ".vo", ".vok", ".vos"):
+        try:
+            os.remove(v[:-2] + ext)
+        except OSError:
+            pass
+    if rc != 0:
+        raise RuntimeError("coqc eval failed: " + out[-2000:])
+    m = re.search(r"=\s*\[(.*?)\]\s*:\s*list", out, flags=re.S)
+    if not m:
+        if re.search(r"=\s*(nil|\[\s*\])", out):
+            return []
+        raise RuntimeError("cannot parse coqc output: " + out[-500:])
+    return [x.strip() for x in m.group(1).replace("\n", " ").split(";") if x.strip()]
